@@ -122,6 +122,7 @@ axiom fndS: forall o L_Ballot, k Int, id Bytes {fnd(o, k + 1, id)} :: k >= 0 ==>
 // returns the first key of the list that carries a witness, or nil: only witnessed Alphabet keys ever vote
 func InnerRingInvoker(ir) (r)
   pure
+  logged
   ensures [C17] len(r) == 0 || W(r)
   ensures [C17] len(r) == 0 || (exists i Int :: 0 <= i && i < len(ir) && ir[i] == r)
   loop 0
